@@ -137,6 +137,7 @@ def fast_sir(ctx, drv):
     """both dispatch paths of fast_SIR with logged rules"""
     import EoN, EoN.simulation as sim
     reqs, metas = [], []
+    greqs, gmetas = [], []
     for _ in range(ctx.scale(500, 3000)):
         c = allsims.gen_case(ctx.rng, "fast_SIR")
         c["prewarm"] = False            # this stream logs every callback / RNG call of the run: no warm-up call
@@ -219,6 +220,10 @@ def fast_sir(ctx, drv):
                 ctx.count("fast_SIR:markov-path-with-recovery-weight")
         reqs.append(esir_req(c, G, idx, li, infs, recs, impl=(full["transmissions"], recoveries(full, recs)), joint=joint))
         metas.append((dict(rep, tape=tr.log), full, plain, infs))
+        _, adj_, ew_, nw_ = sims.graph_req(G, lab, c)
+        greqs.append(dict(n=c["n"], adj=adj_, tmin=c["tmin"], tmax=c["tmax"], infs=infs, recs=recs, tau=c["tau"], gamma=c["gamma"],
+                          ew=ew_, nw=nw_, tape=tr.log, exps=[[rs(a), rs(b)] for a, b in getattr(tr, "exp_log", [])]))
+        gmetas.append((dict(rep, tape=tr.log), full, plain, sims.enc_trace(tr.trace, idx)))
     for (rep, full, plain, infs), m in zip(metas, drv.batch(reqs)):
         ctx.traces += 1
         ctx.case(rep, nontrivial=len(full["transmissions"]) > len(infs))
@@ -235,6 +240,70 @@ def fast_sir(ctx, drv):
         if plain["times"] != m["times"] or plain["cols"] != [m["S"], m["I"], m["R"]] or full["transmissions"] != m["trans"]:
             ctx.disagreement("fast_SIR-esir", dict(rep, impl=dict(times=plain["times"][:20], trans=full["transmissions"][:20]),
                                                    model=dict(times=m["times"][:20], trans=m["trans"][:20])))
+    fast_sir_generated(ctx, greqs, gmetas)
+
+
+def fast_sir_generated(ctx, greqs, gmetas):
+    """the Lean code GENERATED from fast_SIR's own part (harness/pyfsir2lean.py -> Gen/FastSIRGen.lean: the dispatch,
+    _get_rate_functions_, the two nested time functions, _find_trans_and_rec_delays_SIR_,
+    _trans_and_rec_time_Markovian_const_trans_, _truncated_exponential_) plugged into the code generated from
+    fast_nonMarkov_SIR, run by its own driver on the same scripted draws; np.exp is a table of the implementation's own
+    calls.  Compared: RNG-call trace (rates, Binomial(n, p) arguments, sample sizes), arrays, transmissions."""
+    import fcntl, subprocess, os, json, pyfsir2lean, pyevent2lean
+    lean = common.LEAN
+    os.makedirs(os.path.join(lean, ".audit"), exist_ok=True)
+    with open(os.path.join(lean, ".audit", "gengill.lock"), "w") as lock:
+        fcntl.flock(lock, fcntl.LOCK_EX)
+        try:
+            _, e1 = pyevent2lean.regenerate(which=("sir",))
+            _, e2 = pyfsir2lean.regenerate()
+            errors = dict(e1, **e2)
+        except Exception as e:
+            errors = {"translator": "crashed: %r" % e}
+        if errors:
+            ctx.disagreement("generated-fast_SIR:translation", dict(entry="fast_SIR", errors=errors))
+            return
+        p = common.lake(["build", "driverfsir"])
+    if p.returncode != 0:
+        ctx.disagreement("generated-fast_SIR:build", dict(entry="fast_SIR", log="\n".join(
+            l for l in (p.stdout + p.stderr).splitlines() if "error" in l)[:1500]))
+        return
+    exe = os.path.join(lean, ".lake", "build", "bin", "driverfsir")
+    data = "\n".join(json.dumps(q, separators=(",", ":")) for q in greqs) + "\n"
+    q = subprocess.run([exe], input=data, capture_output=True, text=True)
+    lines = q.stdout.splitlines()
+    if q.returncode != 0 or len(lines) != len(greqs):
+        raise RuntimeError("driverfsir crashed: " + q.stderr[-1000:])
+
+    def canon(tr_):
+        out = []
+        for c_ in tr_:
+            if c_[0] == "b":
+                out.append(["b", c_[1], float(F(c_[2])) if isinstance(c_[2], str) else float(c_[2])])
+            elif c_[0] == "e":
+                out.append(["e", str(F(c_[1]))])
+            else:
+                out.append(list(c_))
+        return out
+    for (rep, full, plain, trace), line in zip(gmetas, lines):
+        g = json.loads(line)
+        ctx.count("fast_SIR:generated-model-runs")
+        if not g.get("ok"):
+            ctx.disagreement("generated-fast_SIR-error", dict(rep, generated=g))
+            continue
+        d = []
+        gt, it = canon(g["trace"]), canon(trace)
+        if gt != it:
+            i = next((i for i in range(min(len(gt), len(it))) if gt[i] != it[i]), -1)
+            d.append("RNG trace at call %d: impl %s generated %s" % (i, it[i] if 0 <= i < len(it) else None, gt[i] if 0 <= i < len(gt) else None))
+        if g["unused"]:
+            d.append("draws not consumed")
+        if plain["ok"] and (plain["times"] != g["times"] or plain["cols"] != [g["S"], g["I"], g["R"]]):
+            d.append("arrays")
+        if full["transmissions"] != g["trans"]:
+            d.append("transmissions")
+        if d:
+            ctx.disagreement("generated-fast_SIR-tape:" + ";".join(d)[:300], dict(rep, diffs=d))
 
 
 def builders(ctx, drv):
